@@ -421,6 +421,7 @@ func enumPatches(u *universe, limit int, emit func(c, r string), rng *rand.Rand)
 				choices = append(choices, k)
 			}
 		}
+		sort.Strings(choices) // announcements arrive in scheduler order; the exploration order must not depend on it
 		if rng != nil {
 			rng.Shuffle(len(choices), func(i, j int) { choices[i], choices[j] = choices[j], choices[i] })
 		}
